@@ -1,0 +1,48 @@
+//go:build verif
+
+// Contracts for the deductive verifier in /verif (govc): the stateful display
+// truncator (C22). Comment-only file, compiled only with -tags verif.
+
+package index
+
+// The truncator returned by NewDisplayTruncator when a limit is set. Its state
+// is the three captured variables docLimit, matchLimit (what is left of each
+// budget) and done. Object invariant truncInv: while not done, a budget that is
+// enforced has something left.
+//  - once done, every call returns nothing and "no more";
+//  - otherwise the result is a prefix of the argument (same backing array,
+//    same start), never longer than what was left of the document budget; the
+//    document budget shrinks by at least what was returned and never goes
+//    below zero - so over any sequence of calls no more than
+//    MaxDocDisplayCount files are ever returned;
+//  - the match budget never grows and never goes below zero;
+//  - "more" is reported exactly while not done.
+//@ func index.NewDisplayTruncator$2
+//@   requires opts != nil
+//@   requires (docLimited && !done ==> docLimit > 0) && (matchLimited && !done ==> matchLimit > 0)
+//@   requires matchLimited && opts.ChunkMatches ==> sepChunks(fm) && (forall i int :: 0 <= i && i < len(fm) ==> okSyms(fm[i].ChunkMatches))
+//@   ensures old(done) ==> result0 == nil && !result1 && done
+//@   ensures !old(done) ==> base(result0) == base(fm) && offset(result0) == offset(fm) && len(result0) <= len(fm)
+//@   ensures !old(done) && docLimited ==> len(result0) <= old(docLimit) && 0 <= docLimit && docLimit <= old(docLimit) - len(result0)
+//@   ensures !docLimited ==> docLimit == old(docLimit)
+//@   ensures !old(done) && matchLimited ==> 0 <= matchLimit && matchLimit <= old(matchLimit)
+//@   ensures !matchLimited ==> matchLimit == old(matchLimit)
+//@   ensures result1 == !done
+//@   ensures old(done) ==> done
+//@   ensures (docLimited && !done ==> docLimit > 0) && (matchLimited && !done ==> matchLimit > 0)
+//@   ensures docLimited == old(docLimited) && matchLimited == old(matchLimited)
+
+// Without limits the truncator is the identity.
+//@ func index.NewDisplayTruncator$1
+//@   ensures result0 == fm && result1
+//@   assigns nothing
+
+// NewDisplayTruncator reports limits exactly when one is set and hands out the
+// truncator in a state that satisfies its invariant: not done, each enforced
+// budget equal to its (positive) option.
+//@ func index.NewDisplayTruncator
+//@   requires opts != nil
+//@   ensures result1 == (opts.MaxDocDisplayCount > 0 || opts.MaxMatchDisplayCount > 0)
+//@   assert at return: !done && docLimited == (opts.MaxDocDisplayCount > 0) && matchLimited == (opts.MaxMatchDisplayCount > 0)
+//@   assert at return: docLimit == opts.MaxDocDisplayCount && matchLimit == opts.MaxMatchDisplayCount
+//@   assert at return: (docLimited && !done ==> docLimit > 0) && (matchLimited && !done ==> matchLimit > 0)
